@@ -462,7 +462,7 @@ def tlc_graph(sc, module, cfg, timeout=900, workers=None, fields=None):
     return r, nodes, edges, inits
 
 
-def sim_paths(sc, module, cfg, num, depth, seed, fields=None, timeout=600):
+def sim_paths(sc, module, cfg, num, depth, seed, fields=None, timeout=600, with_init=False):
     """Random behaviours from TLC's simulator: returns (TLCResult, list of paths); a path is the
     list of states (dicts, optionally restricted to `fields`) after the initial state."""
     d = tempfile.mkdtemp(prefix="sim-", dir=sc.dir)
@@ -489,7 +489,10 @@ def sim_paths(sc, module, cfg, num, depth, seed, fields=None, timeout=600):
                     if name in fields:
                         st[name] = parse_value(val)
                 states.append(st)
-        if len(states) > 1:
+        if with_init:
+            if states:
+                paths.append(states)
+        elif len(states) > 1:
             paths.append(states[1:])
     shutil.rmtree(d, ignore_errors=True)
     return r, paths
